@@ -46,10 +46,9 @@ fn envs_for(r: &mut Prng, uses_pool: bool, thorough: bool) -> Vec<Env> {
     } else {
         v.push(Env { threads: 8, policy: "late-steal".into(), sched_seed: r.next_u64() >> 16, context: Context::Siblings, ..e0.clone() });
     }
-    if thorough {
-        for _ in 0..8 {
-            v.push(random_env(r, uses_pool));
-        }
+    // seeded swarm on top of the fixed dimensions
+    for _ in 0..(if thorough { 8 } else { 2 }) {
+        v.push(random_env(r, uses_pool));
     }
     v
 }
@@ -64,7 +63,7 @@ fn plan(reg: &crate::scen::Registry, tier: &str, seed: u64, only: Option<&str>) 
     let thorough = tier == "thorough";
     let mut jobs = Vec::new();
     let mut meta = Vec::new();
-    let nseeds = if thorough { 12 } else { 2 };
+    let nseeds = if thorough { 40 } else { 6 };
     for (si, s) in reg.scenarios.iter().enumerate() {
         if let Some(pfx) = only {
             if !s.name.starts_with(pfx) {
